@@ -60,8 +60,13 @@ type Op[T Elem] struct {
 	Red    string           // reductions: which exact value is approximated
 	Prefix string           // "sum" or "prod": running reduction (CumSum, CumProd), see checkPrefix
 	Approx bool             // axpy-shaped kernel compared with a rounding bound instead of bit-for-bit, see checkApproxAxpy
-	Acc64  bool             // reduction accumulates float32 data in float64 (Ddot)
-	Extra  float64          // additional relative tolerance in units of u (documented where used)
+	// GuardN1 places the operands of every n == 1 call against guard pages. Set
+	// for a kernel with a known runaway loop at n == 1 (c64.AxpyUnitaryTo): the
+	// first out-of-bounds read then faults before anything is overwritten, the
+	// fault is reported as <fn>/runtime-fault and the process stays usable.
+	GuardN1 bool
+	Acc64   bool    // reduction accumulates float32 data in float64 (Ddot)
+	Extra   float64 // additional relative tolerance in units of u (documented where used)
 	// Classes lists the data classes of the kernel's domain.
 	Classes []int
 }
@@ -142,6 +147,9 @@ func CheckVec[T Elem](pkg string, ops map[string]*Op[T]) func(Case) *vk.Failure 
 		guard := c.Guard
 		if guard < 0 || guard > 2 {
 			guard = 0
+		}
+		if op.GuardN1 && n == 1 && guard == 0 {
+			guard = GuardEnd
 		}
 
 		vk.Class(fmt.Sprintf("%s.%s class=%s", pkg, op.Name, ClassName(c.Class)))
